@@ -111,7 +111,8 @@ def _model_check(ctx):
         ("XK", "LayoutPipeXK.cfg",
          [("FlagMenu <- XKFlagMenu\n", "FlagMenu <- XKFlagMenuQ\n"), ("PairsMenu <- XKPairsMenu\n", "PairsMenu <- XKPairsMenuQ\n"),
           ("Chars <- XKChars\n", "Chars <- XKCharsQ\n")] if q
-         else [("PlanMenu <- XKPlanMenu\n", "PlanMenu <- XKPlanMenuT\n"), ("PairsMenu <- XKPairsMenu\n", "PairsMenu <- XKPairsMenuQ\n")],
+         else [("PlanMenu <- XKPlanMenu\n", "PlanMenu <- XKPlanMenuT\n"), ("PairsMenu <- XKPairsMenu\n", "PairsMenu <- XKPairsMenuQ\n"),
+               ("FlagMenu <- XKFlagMenu\n", "FlagMenu <- XKFlagMenuT\n")],
          "kern fold, all flag combinations x pair sets"),
     ]
 
@@ -324,12 +325,16 @@ def run(ctx):
     if skip_mc:
         ctx.notes.append("VERIF_C15_SKIP_MC set: the exhaustive TLC runs were skipped (development run)")
     ctx.cov["bounds"] = {
-        "exhaustive": "fonts from menus of 3 GSUB / 2 GPOS lookups, <= 2 lookups, 1 feature, <= 2 language systems, "
-                      "strings <= 2 over 4-5 characters; script lists with <= %d language systems x 2 request tags x 3 "
-                      "switch sets x 2 calls; kern tables with <= %d subtables x 5-6 flag combinations"
-                      % ((2, 2) if ctx.quick() else (3, 3)),
+        "exhaustive": "layout: every font of the small menus (2 cmap variants, with/without GDEF marks, GSUB of <= %d lookups "
+                      "from a menu of 3, or GPOS of 1 lookup from a menu of 2, 1 feature, 1 language system; in memory and "
+                      "re-read), every string of <= 2 characters out of %d, every request/switch combination of the menus; "
+                      "feature selection: all script lists with <= %d language systems (3 tags, 3 required x 3 optional "
+                      "choices each) x 2-feature lists x 2 request tags x 3 switch sets x 2 calls; kern: all tables of <= %d "
+                      "subtables x 5 flag combinations x 2-3 pair sets, all 2-character strings"
+                      % ((1, 4, 2, 2) if ctx.quick() else (2, 5, 3, 3)),
         "generated": "script lists with 1..20 language systems of a pool of 30 tags, 8 features, 6 lookups; fonts with "
-                     "<= 4 GSUB and <= 3 GPOS lookups, strings <= 6 over 10 characters; kern tables with 1..4 subtables",
+                     "<= 4 GSUB and <= 3 GPOS lookups, strings <= 6 over 10 characters; kern tables with 1..4 subtables; "
+                     "random cases: <= 20 language systems, <= 12 features, strings <= 10",
     }
 
 
